@@ -885,6 +885,84 @@ func rewriteJarConsistently(data []byte) []byte {
 	return out
 }
 
+// machoStripBlob removes the n-th blob of type requirements (2), entitlements (5) or DER
+// entitlements (7) from the embedded-signature super blob of a thin Mach-O image and pads
+// the super blob back to its size.
+func machoStripBlob(data []byte, n int) ([]byte, string) {
+	le, be := binary.LittleEndian, binary.BigEndian
+	if len(data) < 32 {
+		return nil, ""
+	}
+	hdr := 28
+	switch le.Uint32(data) {
+	case 0xfeedfacf:
+		hdr = 32
+	case 0xfeedface:
+	default:
+		return nil, ""
+	}
+	ncmds, pos := int(le.Uint32(data[16:])), hdr
+	var off, size int
+	for i := 0; i < ncmds && pos+16 <= len(data); i++ {
+		cmd, l := le.Uint32(data[pos:]), int(le.Uint32(data[pos+4:]))
+		if cmd == 0x1d {
+			off, size = int(le.Uint32(data[pos+8:])), int(le.Uint32(data[pos+12:]))
+		}
+		if l < 8 {
+			return nil, ""
+		}
+		pos += l
+	}
+	if size < 12 || off+size > len(data) || be.Uint32(data[off:]) != 0xfade0cc0 {
+		return nil, ""
+	}
+	sb := data[off : off+size]
+	count := int(be.Uint32(sb[8:]))
+	type ent struct {
+		typ  uint32
+		blob []byte
+	}
+	var ents []ent
+	var cands []int
+	for i := 0; i < count; i++ {
+		typ, bo := be.Uint32(sb[12+8*i:]), int(be.Uint32(sb[12+8*i+4:]))
+		if bo+8 > len(sb) {
+			return nil, ""
+		}
+		bl := int(be.Uint32(sb[bo+4:]))
+		if bl < 8 || bo+bl > len(sb) {
+			return nil, ""
+		}
+		ents = append(ents, ent{typ, sb[bo : bo+bl]})
+		if typ == 2 || typ == 5 || typ == 7 {
+			cands = append(cands, i)
+		}
+	}
+	if len(cands) == 0 {
+		return nil, ""
+	}
+	victim := cands[n%len(cands)]
+	var idx, body []byte
+	kept := len(ents) - 1
+	at := 12 + 8*kept
+	for i, e := range ents {
+		if i == victim {
+			continue
+		}
+		idx = be.AppendUint32(be.AppendUint32(idx, e.typ), uint32(at+len(body)))
+		body = append(body, e.blob...)
+	}
+	nsb := be.AppendUint32(be.AppendUint32(be.AppendUint32(nil, 0xfade0cc0), uint32(at+len(body))), uint32(kept))
+	nsb = append(append(nsb, idx...), body...)
+	if len(nsb) > size {
+		return nil, ""
+	}
+	nsb = append(nsb, make([]byte, size-len(nsb))...)
+	out := append([]byte{}, data...)
+	copy(out[off:], nsb)
+	return out, fmt.Sprintf("signature blob of type %d removed from the super blob", ents[victim].typ)
+}
+
 // arMembers lists the member names of an ar archive and the offsets of their headers.
 func arMembers(data []byte) (names []string, offs []int) {
 	if !bytes.HasPrefix(data, []byte("!<arch>\n")) {
@@ -918,7 +996,7 @@ func sigMember(format, name string) bool {
 }
 
 func TestC02_Semantic(t *testing.T) {
-	kinds := []string{"zip-replace", "zip-delete", "zip-add", "jar-add-listed", "jar-consistent-rewrite-inline", "apk-v2-foreign-key", "apk-v2-foreign-key", "ps-append-after-block", "ps-graft", "ps-append-line", "pgp-graft", "pe-graft", "pe-append-after-table", "pe-append-inside-table", "pe-graft-entry", "deb-insert-member", "cab-append", "xap-append", "msi-extra-stream", "msi-change-stream"}
+	kinds := []string{"zip-replace", "zip-delete", "zip-add", "jar-add-listed", "jar-consistent-rewrite-inline", "apk-v2-foreign-key", "apk-v2-foreign-key", "ps-append-after-block", "ps-graft", "ps-append-line", "pgp-graft", "pe-graft", "pe-append-after-table", "pe-append-inside-table", "pe-graft-entry", "deb-insert-member", "macho-strip-blob", "macho-strip-blob", "cab-append", "xap-append", "msi-extra-stream", "msi-change-stream"}
 	reps := evid.EnvInt("VERIF_C02_SEMREPS", 8)
 	rapid.Check(t, func(t *rapid.T) {
 		for r := 0; r < reps; r++ {
@@ -1199,6 +1277,16 @@ func semanticOnce(t *rapid.T, kinds []string) {
 			}
 			mutated = append(append(append([]byte{}, sa.data[:offs[at]]...), ent...), sa.data[offs[at]:]...)
 			cd.Region = fmt.Sprintf("member %q inserted in front of %q", name, names[at])
+		case kind == "macho-strip-blob":
+			// a blob whose hash the signed code directory records (requirements, entitlements)
+			// taken out of the signature super blob; code directory, CMS and code pages stay
+			sa = signOne(t, "macho", dir)
+			var what string
+			mutated, what = machoStripBlob(sa.data, rapid.IntRange(0, 2).Draw(t, "which_blob"))
+			if mutated == nil {
+				panic("skip-rep")
+			}
+			cd.Region = what
 		case kind == "cab-append":
 			sa = signOne(t, "cab", dir)
 			mutated = append(append([]byte{}, sa.data...), []byte("TRAILING-DATA-AFTER-SIGNATURE")...)
